@@ -255,6 +255,12 @@ func toReal(t *Term) *Term {
 }
 
 func (u *Unit) valuesEqual(x, y Value) *Term {
+	if x.K == KIface && x.Inner != nil {
+		x = *x.Inner
+	}
+	if y.K == KIface && y.Inner != nil {
+		y = *y.Inner
+	}
 	switch {
 	case x.K == KSlice && y.K == KSlice:
 		return And(Eq(x.Ptr, y.Ptr), Eq(x.Len, y.Len), Eq(x.Cap, y.Cap))
